@@ -175,9 +175,7 @@ def value_eq(t, got, want):
 def pred(case, stats):
     from pylogix import PLC
     from cpppo.server.enip import device
-    if _SERVER[0] is None:
-        _SERVER[0] = sim.TcpServer(SPECS)
-    server = _SERVER[0]
+    server = sim.per_process('c14', lambda: sim.TcpServer(SPECS))
     reset_tags(server)
     mdl = M.Model(SPECS)
     classes = set()
